@@ -1,3 +1,4 @@
+import numpy as np
 from menelaus.data_drift.histogram_density_method import HistogramDensityMethod
 
 
@@ -163,7 +164,8 @@ class CDBD(HistogramDensityMethod):
             y_pred (numpy.array): predicted labels for dataset - not used by CDBD
         """
         # Ensure only being used with 1 variable in reference
-        if len(X.shape) > 1 and X.shape[1] != 1:
+        shape = np.shape(X)  # X may be a list, as for the other detectors
+        if len(shape) > 1 and shape[1] != 1:
             raise ValueError("CDBD should only be used to monitor 1 variable.")
         super().set_reference(X, None, None)
 
@@ -180,6 +182,7 @@ class CDBD(HistogramDensityMethod):
         """
 
         # Ensure only being used with 1 variable in test
-        if len(X.shape) > 1 and X.shape[1] != 1:
+        shape = np.shape(X)  # X may be a list, as for the other detectors
+        if len(shape) > 1 and shape[1] != 1:
             raise ValueError("CDBD should only be used to monitor 1 variable.")
         super().update(X, None, None)
